@@ -788,9 +788,13 @@ pub fn run_shard(ctx: &ShardCtx, rep: &mut Report) {
         Tier::Thorough => ctx.scaled(150_000) as u64,
     };
     for i in 0..total {
+        if ctx.past_end(i) {
+            break;
+        }
         if !ctx.mine(i) {
             continue;
         }
+        rep.current_run = i;
         let case = make_case(ctx, i);
         let res = run_case_on_thread(&case, None);
         let (st, found) = match res {
